@@ -1404,6 +1404,14 @@ def make_macro(identifier, args, expansion):
         return MacroFunction(identifier, args, expansion)
 
 
+def _is_operator(token, spelling):
+    """
+    True if `token` is the operator `spelling` (and not, e.g., a character
+    or string constant with that spelling).
+    """
+    return isinstance(token, Operator) and token.token == spelling
+
+
 class Macro:
     """
     Represents a macro definition.
@@ -1414,9 +1422,9 @@ class Macro:
         self.replacement = replacement
 
         if isinstance(self.replacement, list) and len(self.replacement) > 0:
-            if self.replacement[0].token == "##":
+            if _is_operator(self.replacement[0], "##"):
                 raise RuntimeError("Found ## operator at start of replacement")
-            elif self.replacement[-1].token == "##":
+            elif _is_operator(self.replacement[-1], "##"):
                 raise RuntimeError("Found ## operator at end of replacement")
             self.replacement[0].prev_white = False
             self.preproc_replacement()
@@ -1427,6 +1435,20 @@ class Macro:
         """
         return -1
 
+    def _parameter_index(self, token, strict=False):
+        """
+        Returns the index of the parameter that `token` names, or -1.
+        Only identifiers name parameters: a character or string constant
+        spelled like one does not.  With `strict`, raises ValueError
+        instead of returning -1.
+        """
+        idx = -1
+        if isinstance(token, Identifier):
+            idx = self.which_arg(token.token)
+        if strict and idx == -1:
+            raise ValueError(token.token)
+        return idx
+
     def preproc_replacement(self):
         """
         Preprocess macroexpansion of ## where it doesn't abut arguments.
@@ -1436,9 +1458,9 @@ class Macro:
 
         while idx < len(self.replacement):
             tok = self.replacement[idx]
-            if tok.token == "##":
+            if _is_operator(tok, "##"):
                 last = res_tokens.pop()
-                arg_idx = self.which_arg(last.token)
+                arg_idx = self._parameter_index(last)
                 if arg_idx != -1:
                     idx += 1
                     res_tokens.append(last)
@@ -1452,7 +1474,7 @@ class Macro:
                     continue
                 idx += 1
                 nexttok = self.replacement[idx]
-                arg_idx = self.which_arg(nexttok.token)
+                arg_idx = self._parameter_index(nexttok)
                 if arg_idx != -1:
                     idx += 1
                     res_tokens.append(last)
@@ -1467,7 +1489,7 @@ class Macro:
                         f"Invalid concatenation: {lex.string}",
                     )
                 tok.prev_white = last.prev_white
-            elif tok.token == "#":
+            elif _is_operator(tok, "#"):
                 if isinstance(self, MacroFunction):
                     self.has_strcat = True
                     # The operand of # is used unexpanded: it does not make
@@ -1491,12 +1513,16 @@ class Macro:
         if hasattr(self, "arg_needs_expansion"):
             needed = [False for _ in self.arg_needs_expansion]
             for i, tok in enumerate(res_tokens):
-                arg_idx = self.which_arg(tok.token)
+                arg_idx = self._parameter_index(tok)
                 if arg_idx == -1 or not isinstance(tok, Identifier):
                     continue
-                before = res_tokens[i - 1].token if i > 0 else None
-                after = res_tokens[i + 1].token if i + 1 < len(res_tokens) else None
-                if before in ("#", "##") or after == "##":
+                before = res_tokens[i - 1] if i > 0 else None
+                after = res_tokens[i + 1] if i + 1 < len(res_tokens) else None
+                if (
+                    _is_operator(before, "#")
+                    or _is_operator(before, "##")
+                    or _is_operator(after, "##")
+                ):
                     continue
                 needed[arg_idx] = True
             self.arg_needs_expansion = needed
@@ -1602,7 +1628,7 @@ class MacroFunction(Macro):
 
             while idx < len(self.replacement):
                 tok = self.replacement[idx]
-                if tok.token == "##":
+                if _is_operator(tok, "##"):
                     if last_cat and placemarker:
                         # The previous ## pasted two empty arguments: its
                         # result is a placemarker, not the preceding token.
@@ -1613,7 +1639,7 @@ class MacroFunction(Macro):
                         prev_white = last.prev_white
                         if not last_cat:
                             try:
-                                argidx = self.args.index(last.token)
+                                argidx = self._parameter_index(last, strict=True)
                                 last = input_args[argidx][0]  # Unexpanded arg
                             except ValueError:
                                 last = [last]
@@ -1623,7 +1649,7 @@ class MacroFunction(Macro):
                     nexttok = self.replacement[idx]
                     comma_va_args = False
                     try:
-                        argidx = self.args.index(nexttok.token)
+                        argidx = self._parameter_index(nexttok, strict=True)
                         nexttok = input_args[argidx][0]  # Unexpanded arg
                         comma_va_args = (
                             self.variadic
@@ -1662,7 +1688,7 @@ class MacroFunction(Macro):
                         res_tokens.extend(nexttok)
                     placemarker = len(last) == 0 and len(nexttok) == 0
                     last_cat = True
-                elif tok.token == "#":
+                elif _is_operator(tok, "#"):
                     prev_white = tok.prev_white
                     idx += 1
                     if idx == len(self.replacement):
@@ -1671,7 +1697,7 @@ class MacroFunction(Macro):
                         )
                     nexttok = self.replacement[idx]
                     try:
-                        argidx = self.args.index(nexttok.token)
+                        argidx = self._parameter_index(nexttok, strict=True)
                         tok = input_args[argidx][0]  # Unexpanded arg
                     except ValueError:
                         raise ParseError(
@@ -1702,7 +1728,7 @@ class MacroFunction(Macro):
             try:
                 if id(token) not in parameter_tokens:
                     raise ValueError
-                substitution = input_args[self.args.index(token.token)][1]
+                substitution = input_args[self._parameter_index(token, strict=True)][1]
                 if len(substitution) > 0:
                     substitution[0] = copy(substitution[0])
                     substitution[0].prev_white = token.prev_white
